@@ -27,7 +27,7 @@ ASSUMPTIONS = ['the reference conditions the joint Gaussian in one shot (Cholesk
                '1e-5 of the reported standard deviation, times cond/1e9 beyond that conditioning (prototype agreement 1e-13; worst seen in calibration 2.3e-7 at cond 2.5e9); cases whose innovation covariance has cond > 1e10 are '
                'counted as ill-conditioned and not decided', 'measurement rows are attached to the grid row at or before their epoch, which is '
                'how the filter linearises them']
-REQUIRED_OBS = ['samples_accounted', 'runs', 'grid_points', 'measurement_blocks', 'sd_compared', 'estimates_compared', 'trajectory_compared',
+REQUIRED_OBS = ['sensors_with_correlated_noise', 'samples_accounted', 'runs', 'grid_points', 'measurement_blocks', 'sd_compared', 'estimates_compared', 'trajectory_compared',
                 'innovations_compared', 'midpoint_crosschecked', 'with_walk', 'with_scale_misal', 'two_d', 'off_grid_epochs']
 REQUIRED_CLASSES = {'all': ['3d', '2d']}
 LLA = ['lat', 'lon', 'alt']
@@ -132,7 +132,15 @@ def build(seed, wa):
         else:
             sd = float(10 ** rng.uniform(-2, 0))
             sensors.append(measurements.BodyVelocity(sim.generate_body_velocity_measurements(ref, sd, ms), sd))
-    return dict(traj=traj, nominal=nominal, comp=comp, inc=inc if with_inc else None, gkw=gkw, akw=akw, sds=sds, sensors=sensors,
+    # a receiver that reports a FULL covariance (correlated components), as a user-defined Measurement would: the estimator must be optimal for
+    # any positive-definite R, not only sd^2 I
+    correlated = 0
+    for sn in sensors:
+        if rng.random() < 0.35:
+            A_ = np.eye(3) + 0.6 * rng.uniform(-1, 1, (3, 3))
+            sn.R = float(sn.R[0, 0]) * (A_ @ A_.T)
+            correlated += 1
+    return dict(correlated=correlated, traj=traj, nominal=nominal, comp=comp, inc=inc if with_inc else None, gkw=gkw, akw=akw, sds=sds, sensors=sensors,
                 time_step=time_step, wa=wa, dt=dt, off_grid=off_grid,
                 describe=dict(dt=dt, time_step=time_step, rows=len(traj), with_increments=with_inc, nominal_is_computed=nominal is comp,
                               gyro={k: (None if v is None else np.asarray(v).tolist()) for k, v in gkw.items()},
@@ -333,5 +341,6 @@ def run_case(case):
     obs['with_walk'] = int(g.n_noises + a.n_noises > 0)
     obs['with_scale_misal'] = int(g.scale_misal_modelled or a.scale_misal_modelled)
     obs['two_d'] = int(not wa)
+    obs['sensors_with_correlated_noise'] = C['correlated']
     obs['off_grid_epochs'] = C['off_grid']
     return dict(violations=out[:8], obs=obs, nontrivial=True, sample=dict(config=cfg, grid_points=K, states=n, measurement_blocks=len(meas), cond=cond))
